@@ -1067,7 +1067,8 @@ class ParsedEvent(EDXMLEvent, etree.ElementBase):
             return self._properties
         except AttributeError:
             properties = OrderedDict()
-            for element in self.find('{http://edxml.org/edxml}properties'):
+            properties_element = self.find('{http://edxml.org/edxml}properties')
+            for element in properties_element if properties_element is not None else []:
                 tag = element.tag[24:]
                 if tag not in properties:
                     properties[tag] = set()
